@@ -1185,6 +1185,17 @@ func genPubLike(r *lib.Rand) CmdIn {
 	}
 }
 
+// a malformed command line: arbitrary bytes (no newline), never a command word
+func junk(r *lib.Rand) string {
+	b := r.Bytes(1 + r.Intn(40))
+	for i := range b {
+		if b[i] == '\n' {
+			b[i] = ' '
+		}
+	}
+	return "\x01" + string(b)
+}
+
 // every command kind, for the sweeps
 func allKinds(r *lib.Rand) []CmdIn {
 	return []CmdIn{
@@ -1199,7 +1210,7 @@ func allKinds(r *lib.Rand) []CmdIn {
 		{K: "REQ", OK: true},
 		{K: "TOUCH", OK: true},
 		{K: "CLS"},
-		{K: "OTHER", Word: pickS(r, []string{"FOO", "identify", "", "PUBX tA", "\x00\x01\x02", "GET / HTTP/1.1"})},
+		{K: "OTHER", Word: pickS(r, []string{"FOO", "identify", "", "PUBX tA", "\x00\x01\x02", "GET / HTTP/1.1", junk(r), junk(r)})},
 		{K: "PUB", Args: []string{"bad$"}, BodyOK: true},
 		{K: "PUB", Args: []string{"tA"}, BodyOK: false, BadHow: "zero"},
 		{K: "MPUB", Args: []string{"tB"}, Mp: "badmsg"},
@@ -1231,7 +1242,7 @@ func genRandomCmd(r *lib.Rand, cfg CfgIn) CmdIn {
 		return CmdIn{K: "IDENTIFY", Neg: r.Bool(), HB: pickS(r, []string{"keep", "off", "on"})}
 	case 6:
 		if r.Chance(40) {
-			return CmdIn{K: "OTHER", Word: pickS(r, []string{"FOO", "pub tA", "", "\xff\xfe"})}
+			return CmdIn{K: "OTHER", Word: pickS(r, []string{"FOO", "pub tA", "", "\xff\xfe", junk(r), junk(r)})}
 		}
 		return CmdIn{K: "IDENTIFY", Neg: true, Snappy: true, Deflate: true, HB: "keep"}
 	default:
